@@ -456,6 +456,91 @@ pub fn collision_check(c: &Collision, st: &mut Stats) -> Check {
     Ok(())
 }
 
+// ---------------------------------------------------------------------------------------
+// fresh process: the reply in a process that has seen sibling traffic (and every earlier case of
+// this worker) equals the reply of a responder started for this one exchange
+
+#[derive(Clone, Debug, Serialize, Deserialize, PartialEq)]
+pub struct FreshCase {
+    pub scn: Scenario,
+    pub sport: u16,
+    pub dport: u16,
+    pub req: AppReq,
+    pub tcp: bool,
+    pub shadow: Shadow,
+}
+
+pub fn fresh_check(c: &FreshCase, st: &mut Stats) -> Check {
+    st.eval();
+    Sut::reset();
+    let sut = Sut::new(&c.scn.cfg);
+    let net = &c.scn.net;
+    let mut frames: Vec<Vec<u8>> = Vec::new();
+    let mut outs: Vec<Out> = Vec::new();
+    {
+        let _g = ShadowGuard::set(&Some(c.shadow.clone()));
+        if c.tcp {
+            let flow = Flow { net: net.clone(), sport: c.sport, dport: c.dport };
+            let syn = flow.syn(77);
+            let o = sut.frame(&syn);
+            let cookie = match &o {
+                Out::Reply(r) => match decode_reply(r).ok().and_then(|d| d.tcp().map(|t| t.seq)) {
+                    Some(k) => k,
+                    None => return Ok(()),
+                },
+                _ => return Ok(()),
+            };
+            frames.push(syn);
+            outs.push(o);
+            let d = flow.data(78, cookie.wrapping_add(1), &c.req.bytes(true));
+            outs.push(sut.frame(&d));
+            frames.push(d);
+        } else {
+            let f = udp_frame(net, c.sport, c.dport, &c.req.bytes(false));
+            outs.push(sut.frame(&f));
+            frames.push(f);
+        }
+        st.frames(frames.len() as u64 + crate::vf::shadow::frames_sent());
+        if crate::vf::shadow::tainted() {
+            st.exclude("shadow-tuple-collision");
+            return Ok(());
+        }
+    }
+    for o in &outs {
+        if let Out::Panic(p) = o {
+            return Err(Failure::keyed(p.key(), format!("panic: {} {}", p.file, p.msg)));
+        }
+    }
+    let fresh = match fresh_process(&c.scn.cfg, &frames) {
+        Ok(f) => f,
+        Err(e) => {
+            st.class("skipped:fresh-process-could-not-be-run");
+            st.set_extra("fresh_process_error", json!(e));
+            return Ok(());
+        }
+    };
+    st.class(&format!("fresh:{}:{}:{}", if c.tcp { "tcp" } else { "udp" }, c.req.kind(), if outs.last().and_then(|o| o.reply()).is_some() { "answered" } else { "silent" }));
+    if outs.last().and_then(|o| o.reply()).is_some() {
+        st.nontrivial(&(c.tcp, c.req.kind(), c.shadow.vary, net.is_v4(), fnv(&c.req.bytes(c.tcp)) % 4096));
+        st.sample(|| json!({"transport": if c.tcp { "tcp" } else { "udp" }, "request": c.req.kind(), "shadow": format!("{:?}", c.shadow)}));
+    }
+    for (i, (a, b)) in outs.iter().zip(fresh.iter()).enumerate() {
+        if norm(a) != norm(b) {
+            vfail!(
+                "frame #{} of a {} exchange ({} request) is answered differently by this process (which has seen sibling traffic {:?} and earlier cases) and by a responder started for this exchange alone.\n frame: {}\n here:  {}\n fresh: {}",
+                i,
+                if c.tcp { "TCP" } else { "UDP" },
+                c.req.kind(),
+                c.shadow,
+                hex(&frames[i][..frames[i].len().min(200)]),
+                a.brief().chars().take(500).collect::<String>(),
+                b.brief().chars().take(500).collect::<String>()
+            );
+        }
+    }
+    Ok(())
+}
+
 impl Prop for C08 {
     fn id(&self) -> &'static str {
         "C08"
@@ -474,6 +559,13 @@ impl Prop for C08 {
                 .prop_map(|(scn, sport, dport, first, second, ack_advances, others)| CrowdCase { scn, sport, dport, first, second, ack_advances, others }),
             crowd_check,
         );
+        let nf = ctx.share(ctx.tier.n(4_000, 60_000));
+        ctx.run_generated(
+            "fresh",
+            nf,
+            (scenario_quiet(Fam::Any), 1024u16..30000, port(), app_req(), any::<bool>(), crate::vf::shadow::shadow()).prop_map(|(scn, sport, dport, req, tcp, shadow)| FreshCase { scn, sport, dport, req, tcp, shadow }),
+            fresh_check,
+        );
         if ctx.worker == 0 || ctx.tier == Tier::Thorough {
             let key = [ctx.seed ^ (ctx.worker as u64) << 8, 0x5eed];
             match birthday(key, ctx.tier.n(400_000, 600_000) as u32) {
@@ -490,6 +582,7 @@ impl Prop for C08 {
         match stream {
             "collision" => collision_check(&serde_json::from_value(case.clone()).map_err(bad)?, st),
             "crowd" => crowd_check(&serde_json::from_value(case.clone()).map_err(bad)?, st),
+            "fresh" => fresh_check(&serde_json::from_value(case.clone()).map_err(bad)?, st),
             _ => check(&serde_json::from_value(case.clone()).map_err(bad)?, st),
         }
     }
